@@ -102,4 +102,37 @@ theorem dpAllFuel_tolerance_ord (sqrt : α → α) (eps : α) (W : Fix α → Fi
     · exact ⟨q, p, hq, (hself p q).2⟩
   · exact hc
 
+/-! ### the chord's first end is at computed distance 0 from the chord, from a few zero laws of the arithmetic -/
+
+/-- the identities of the arithmetic that `distance_to_segment(A; A, B)` goes through. Exact arithmetic satisfies them; so do
+IEEE doubles on finite values whose differences do not overflow (`x − x = +0`, `0 × d = ±0`, `±0 + ±0 = ±0`, `±0 / l = ±0`,
+`x + ±0 = x`, `sqrt(±0) = ±0`, and `±0` is not `> 0`) -/
+structure ZeroLaws (sqrt : α → α) : Prop where
+  sub_self : ∀ x : α, x - x = 0
+  zero_mul : ∀ x : α, (0 : α) * x = 0
+  zero_add_zero : (0 : α) + 0 = 0
+  zero_div : ∀ x : α, (0 : α) / x = 0
+  add_zero : ∀ x : α, x + 0 = x
+  sqrt_zero : sqrt 0 = 0
+
+theorem pmax_pmin_self (a b : α) : pmax a (pmin a b) = a := by
+  unfold pmax pmin
+  by_cases h : b < a
+  · simp only [h, ↓reduceIte, gt_iff_lt, lt_asymm h]
+  · simp only [h, ↓reduceIte, gt_iff_lt, lt_irrefl]
+
+theorem pmin_pmax_self (a b : α) : pmin a (pmax a b) = a := by
+  unfold pmax pmin
+  by_cases h : b > a
+  · simp only [h, ↓reduceIte, lt_asymm h]
+  · simp only [h, ↓reduceIte, lt_irrefl]
+
+/-- `distance_to_segment(A; A, B) = 0` in any arithmetic with the zero laws (either branch of `l == 0`) -/
+theorem distFix_self_ord (sqrt : α → α) (hz : ZeroLaws sqrt) (a b : Fix α) : distFix sqrt a b a = 0 := by
+  unfold distFix distanceToSegment
+  simp only [hz.sub_self, hz.zero_mul, hz.zero_add_zero, hz.zero_div, hz.add_zero, hz.sqrt_zero]
+  split
+  · rfl
+  · simp only [pmax_pmin_self, pmin_pmax_self, hz.sub_self, hz.zero_mul, hz.zero_add_zero, hz.sqrt_zero]
+
 end TV.Simplify
